@@ -1,5 +1,5 @@
 """C30 — singletons stay single even when first requested concurrently (DESIGN §8)."""
-import small_corr, text_corr, factory_corr, single_corr
+import small_corr, text_corr, factory_corr, single_corr, nested_corr
 
 
 def explore(run, lean):
@@ -8,6 +8,7 @@ def explore(run, lean):
     small_corr.explore_singleton_kinds(run)
     small_corr.explore_singleton_failing(run, 40 if quick else 1000)
     small_corr.explore_singleton_nested(run, 40 if quick else 1000)
+    nested_corr.explore(run, (30 if quick else 800) * (3 if lean.get("broken") else 1))
     single_corr.explore(run, (40 if quick else 1000) * (3 if lean.get("broken") else 1))
     run.extra["rule"] = ("2-4 threads making the first request of a SingletonDecorator: (A) lock-granularity schedules replayed on the Lean model, (B) bytecode-granularity random schedules of __call__ checked by the oracle (one instance); (C) 2-3 threads x 1-3 requests each, some refused by the constructor, one scheduling point per shared access (instance reads / writes, lock, __new__, __init__): the recorded schedule is replayed on the Lean model Conc.SingleInit, the model's program counter is compared with the access before every step and outcomes, instance, initialised / failed objects at the end")
 
@@ -17,6 +18,8 @@ def replay(case):
     what = cc.get("what", "")
     if what in ("strip", "stmt", "json"):
         return text_corr.replay(case)
+    if what == "singleton-nested-steps":
+        return nested_corr.replay(case)
     if what == "singleton-init":
         return single_corr.replay(case)
     if "regs" in cc:
